@@ -60,6 +60,7 @@ PROPS["C01"] = {
     "stages": [
         pbt("roundtrip", "pbt_C01", quick={"cases": 3000, "size": 100, "shards": 8},
             thorough={"cases": 20000, "size": 200, "shards": 16}),
+        cgf("coverage_guided", "pbt_C01", quick={"runs": 8000, "workers": 8}, thorough={"runs": 600000, "workers": 16}),
     ],
 }
 
@@ -78,6 +79,7 @@ PROPS["C07"] = {
     "stages": [
         pbt("frame_walker", "pbt_C07", quick={"cases": 3000, "size": 100, "shards": 8},
             thorough={"cases": 20000, "size": 200, "shards": 16}),
+        cgf("coverage_guided", "pbt_C07", quick={"runs": 8000, "workers": 8}, thorough={"runs": 600000, "workers": 16}),
     ],
 }
 
@@ -95,6 +97,7 @@ PROPS["C08"] = {
     "stages": [
         pbt("layout_model", "pbt_C08", quick={"cases": 3000, "size": 100, "shards": 8},
             thorough={"cases": 20000, "size": 200, "shards": 16}),
+        cgf("coverage_guided", "pbt_C08", quick={"runs": 8000, "workers": 8}, thorough={"runs": 600000, "workers": 16}),
     ],
 }
 
